@@ -82,8 +82,12 @@ func drawC04(rt *rapid.T, p *Plan, tier string) *Plan {
 	}
 	np := rapid.IntRange(1, 7).Draw(rt, "npieces")
 	for i := 0; i < np; i++ {
+		pk := rapid.IntRange(0, maxKind+1).Draw(rt, "pk")
+		if pk == maxKind+1 {
+			pk = pieceOracleRequest
+		}
 		ap.Pieces = append(ap.Pieces, Piece{
-			Kind: rapid.IntRange(0, maxKind).Draw(rt, "pk"),
+			Kind: pk,
 			A:    rapid.IntRange(0, numAccounts-1).Draw(rt, "pa"),
 			B:    rapid.IntRange(0, numAccounts-1).Draw(rt, "pb"),
 			X:    rapid.IntRange(0, 15).Draw(rt, "px"),
@@ -111,6 +115,14 @@ func drawC04(rt *rapid.T, p *Plan, tier string) *Plan {
 }
 
 const numSettings = 7
+
+// pieceOracleRequest: a helper contract makes an oracle request (id counter, stored request, id list of the url, GAS
+// minted to the Oracle contract, notification). The number lies behind the settings so that stored plans keep their meaning.
+const pieceOracleRequest = len(pieceNames) + 2*numSettings
+
+func oracleRequestPieceArgs(pc Piece) []any {
+	return oracleRequestArgs(Op{X: pc.X, Y: pc.Y, N: int64(pc.A)})
+}
 
 var settingNames = [...]string{"Policy.setFeePerByte", "Policy.setExecFeeFactor", "Policy.setStoragePrice", "Policy.blockAccount",
 	"Policy.setWhitelistFeeContract", "Policy.setAttributeFee", "RoleManagement.designateAsRole"}
@@ -153,6 +165,11 @@ func (r *run) emitPiece(w *nio.BinWriter, pc Piece, signer util.Uint160) string 
 	k2 := p.khash[(pc.B+1)%numContracts]
 	key := kKeys[pc.X%len(kKeys)]
 	val := kVals[pc.Y%len(kVals)]
+	if pc.Kind == pieceOracleRequest {
+		appCallDrop(w, k, "call", nativehashes.OracleContract, "request", oracleRequestPieceArgs(pc))
+		r.out.Probes["atom_oracle_request_piece"]++
+		return "K.call(Oracle.request)"
+	}
 	if pc.Kind >= len(pieceNames) && r.plan.Atom.Committee {
 		h, m, args := r.nativeSetting(pc)
 		appCallDrop(w, h, m, args...)
@@ -597,6 +614,11 @@ func (r *run) atomCaught(T *Node, signer neotest.SingleSigner, extra []*transact
 	for _, pc := range ap.Pieces {
 		kk := kKeys[pc.X%len(kKeys)]
 		vv := kVals[pc.Y%len(kVals)]
+		if pc.Kind == pieceOracleRequest {
+			effects = append(effects, []any{"call", []any{nativehashes.OracleContract, "request", oracleRequestPieceArgs(pc)}})
+			r.out.Probes["atom_oracle_request_piece"]++
+			continue
+		}
 		if pc.Kind >= len(pieceNames) && ap.Committee {
 			h, m, args := r.nativeSetting(pc)
 			effects = append(effects, []any{"call", []any{h, m, args}})
